@@ -256,26 +256,46 @@ static const char *fail_name[] = { "none", "mismatch", "acc", "fault-native", "f
   "src-changed", "abi", "ref-emu", "float", "nan", "mask", "denormal" };
 static const char *fail_prop[] = { "", "C01", "C01", "C03", "C03", "C03", "C03", "C03", "C10", "C02", "C18", "C18", "C18", "C18" };
 
-typedef struct {
+typedef struct Failure_ Failure;
+static const char *prop_of (const Failure *f);
+struct Failure_ {
   int kind;
   char what[400];
   char sub[64];       /* sub-class for the signature (e.g. which register, read/write before/after) */
   int var, row; long elem;
   int c1, c2, c3;     /* loop counters observed */
-} Failure;
+};
+/* a write behind the executor the function was handed is a write outside "destination arrays and the executor": the calling
+ * convention property's clause when that property is the one being decided, the entitlement property's otherwise */
+static const char *prop_of (const Failure *f)
+{
+  if (f->kind == F_FAULT_NATIVE && !strcmp (vh_args.mode, "c10") && strstr (f->sub, "write-") && (strstr (f->sub, "-executor") || strstr (f->sub, "write-wild"))) return "C10";
+  return fail_prop[f->kind];
+}
 
 static int want_ref;      /* also run the reference interpreter (C02x / C18) */
 static unsigned report_mask = ~0u; /* failure kinds reported in this mode */
 static int float_mode;    /* C18 comparison rules */
 static OrcExecutor *exA;  /* lives in the arena, flush against a guard page */
 static uint64_t run_count;
+static long hangs_seen;   /* watchdog firings in this shard, reported or not */
 
+#define NATIVE_WATCHDOG_S 5
+#include <sys/time.h>
+/* counts the process's own user CPU time, so a loaded machine cannot trip it */
+static void watchdog (int s) { struct itimerval it; memset (&it, 0, sizeof it); it.it_value.tv_sec = s; setitimer (ITIMER_VIRTUAL, &it, NULL); }
 static void fault_text (Failure *f, const RunSetup *rs, const RunCfg *cfg, const ProgSpec *ps, const char *who)
 {
   int k, via = 0, cls = 0; const char *vn = "?"; const char *side = "";
   const uint8_t *addr = (const uint8_t *) arena_fault_addr;
   int is_write = (arena_fault_err & 2) != 0;
   f->var = -1;
+  if (arena_fault_sig == SIGVTALRM) {
+    /* watchdog: the call had not returned after NATIVE_WATCHDOG_S seconds of a run that normally takes microseconds */
+    snprintf (f->sub, sizeof f->sub, "hang");
+    snprintf (f->what, sizeof f->what, "%s code: still running after %d s of its own CPU time (n=%d m=%d), interrupted at rip %#lx", who, NATIVE_WATCHDOG_S, cfg->n, cfg->m, arena_fault_rip);
+    return;
+  }
   for (k = 0; k < rs->nap; k++) {
     const ArrPlace *a = &rs->ap[k]; int c;
     for (c = 0; c < (a->is_dest ? 3 : 1); c++) {
@@ -557,11 +577,15 @@ static int run_one (OrcProgram *p, ProgSpec *ps, const Tgt *tg, const RunCfg *cf
   st.mxcsr_in = cfg->mxcsr;
   arena_armed = 1;
   if (sigsetjmp (arena_jmp, 1) == 0) {
+    watchdog (NATIVE_WATCHDOG_S);
     vh_tramp_call ((void (*)(void *)) p->code_exec, exA, &st);
+    watchdog (0);
     arena_armed = 0;
   } else {
+    watchdog (0);
     vh_tramp_reset ();
     fault_text (&f, &rs, cfg, ps, "native");
+    if (!strcmp (f.sub, "hang")) hangs_seen++;
     PUSH (F_FAULT_NATIVE);
     restore_run (cfg, &rs, 1, want_ref);
     return nf;
@@ -702,7 +726,7 @@ static void make_sig (char *sig, size_t cap, const ProgSpec *ps, const Tgt *tg, 
   for (i = 0; i < nn; i++) for (j = i + 1; j < nn; j++) if (strcmp (names[i], names[j]) > 0) { const char *t = names[i]; names[i] = names[j]; names[j] = t; }
   for (i = 0; i < nn && i < 4; i++) { if (i) strncat (ops, "+", sizeof ops - strlen (ops) - 1); strncat (ops, names[i], sizeof ops - strlen (ops) - 1); }
   if (nn > 4) strncat (ops, "+...", sizeof ops - strlen (ops) - 1);
-  snprintf (sig, cap, "%s|%s|%s|%s%s%s%s%s%s%s", fail_prop[f->kind], fail_name[f->kind], tg->name, ops,
+  snprintf (sig, cap, "%s|%s|%s|%s%s%s%s%s%s%s", prop_of (f), fail_name[f->kind], tg->name, ops,
       f->sub[0] ? "|" : "", f->sub, srceq ? "|src1==src2" : "", hasconst ? "|const" : "", hasparam ? "|param" : "", inplace ? "|inplace" : "");
   if (ps->is2d) strncat (sig, "|2d", cap - strlen (sig) - 1);
   /* resampling loads: tag the input conditions known to matter */
@@ -756,6 +780,9 @@ static void compact_with_remap (ProgSpec *ps, RunCfg *cfg)
   for (i = 0; i < n; i++) { param_val[i] = pv[i]; cfg->off[i] = off[i]; cfg->gap[i] = gap[i]; }
 }
 
+static long failures_reported;
+#define MAX_FAILURES_PER_SHARD 150   /* a tree this broken is decided; stop exploring so a slow failure mode cannot stall the shard */
+
 static void shrink_and_report (ProgSpec *ps0, const Tgt *tg, const RunCfg *cfg0, const Failure *f0, long caseidx)
 {
   ProgSpec ps = *ps0, cand; RunCfg cfg = *cfg0, ccfg; Failure f = *f0, g;
@@ -763,6 +790,9 @@ static void shrink_and_report (ProgSpec *ps0, const Tgt *tg, const RunCfg *cfg0,
   char sig[400]; VhBuf b = { 0 };
   uint64_t saved_params[GEN_MAX_VARS], cparams[GEN_MAX_VARS];
   memcpy (saved_params, param_val, sizeof saved_params);
+  failures_reported++;
+  if (failures_reported > 40) pass = 8;   /* report further failures without shrinking */
+  if (!strcmp (f.sub, "hang")) pass = 8;   /* every shrinking step of a hang would cost another watchdog period */
   while (changed && pass++ < 8) {
     changed = 0;
     for (q = ps.ninsns - 1; q >= 0; q--) {
@@ -828,7 +858,7 @@ static void shrink_and_report (ProgSpec *ps0, const Tgt *tg, const RunCfg *cfg0,
     char sig2[480]; snprintf (sig2, sizeof sig2, "C11|exec|flags=%#x|%s", tg->flags, sig);
     vh_violation ("C11", sig2, f.what, b.p);
   } else
-  vh_violation (fail_prop[f.kind], sig, f.what, b.p);
+  vh_violation (prop_of (&f), sig, f.what, b.p);
   free (b.p);
   memcpy (param_val, saved_params, sizeof saved_params);
 }
@@ -947,7 +977,7 @@ int main (int argc, char **argv)
     n_tgts = k;
   }
   slots_init ();
-  exA = (OrcExecutor *) (arena_data_rw (&slotEx, 0) + ARENA_DATA_BYTES - ((sizeof (OrcExecutor) + 15) & ~15UL));
+  exA = (OrcExecutor *) (arena_data_rw (&slotEx, 0) + ARENA_DATA_BYTES - ((sizeof (OrcExecutor) + 7) & ~7UL));   /* flush against the guard page, aligned as a caller's OrcExecutor object is (8) */
   arena_install_handlers ();
   finite_only = 1;
 
@@ -1061,6 +1091,7 @@ int main (int argc, char **argv)
     vh_count ("cases.run", 1);
     if (nsamples < 3 && (c % 97) == (long) (vh_args.seed % 97)) { sample_program (&ps, c); nsamples++; }
     run_program (&ps, c, &r, is_single);
+    if (failures_reported >= MAX_FAILURES_PER_SHARD || hangs_seen >= 6) { vh_count ("shard.stopped_after_failures", 1); break; }
     if ((c & 63) == 0) vh_flush ();
   }
   {
